@@ -49,7 +49,8 @@ def Transaction.Canon (p : Params) (t : Transaction) : Prop :=
   t.id = generateId p t.inputs t.outputs t.timestamp ∧
   elems t.outputs ≠ [] ∧
   (elems t.inputs = [] → ∃ o, elems t.outputs = [some o] ∧ t.hasReward = true ∧ t.rewardRecipient = o.address ∧
-    t.rewardValue = o.value)
+    t.rewardValue = o.value) ∧
+  (elems t.outputs).length ≤ 65536       -- output indexes are uint16 (fix: commit): at most 2^16 outputs
 
 /-- the derived reward fields of a transaction WITH inputs are those of a freshly allocated object -/
 def Transaction.Fresh (t : Transaction) : Prop :=
